@@ -27,6 +27,7 @@ if dirty:
     print("warning: uncommitted changes in /verif are NOT part of this run:\n" + dirty)
 shutil.rmtree(ROOT, ignore_errors=True)
 sh("git -C /repo worktree prune; git -C %s worktree prune" % VERIF)
+HEAD = sh("git -C %s rev-parse --short HEAD" % VERIF).stdout.strip()
 q = queue.Queue()
 for m in names:
     q.put(m)
@@ -56,7 +57,7 @@ def worker(k):
         t0 = time.time()
         p = sh(os.path.join(vw, "bin", "check") + " " + prop, cwd=vw, env=env)
         lines = [l for l in p.stdout.split("\n") if l.startswith("VIOLATION")]
-        r = {"check": prop, "exit": p.returncode, "caught": p.returncode == 1 and bool(lines),
+        r = {"check": prop, "verif_commit": HEAD, "exit": p.returncode, "caught": p.returncode == 1 and bool(lines),
              "violation_lines": [l.replace(vw, "/verif")[:300] for l in lines][:4], "wall_s": round(time.time() - t0, 1)}
         with lock:
             res[m] = r
